@@ -32,6 +32,7 @@ type key struct {
 	Times int    `json:"times"`
 	Copies int   `json:"copies"`
 	Ms    int    `json:"ms"`
+	DupDelayMs int `json:"dupDelayMs"`
 }
 type sched struct {
 	Name       string `json:"name"`
@@ -45,6 +46,8 @@ type sched struct {
 	Sizes      []int  `json:"sizes"`
 	Both       bool   `json:"both"`
 	BoundMs    int    `json:"boundMs"`
+	PauseMs    int    `json:"pauseMs"` // pause between the writer's writes (request/response-like traffic)
+	LateClose  bool   `json:"lateClose"` // the writer stays idle and closes only after the reader has everything (or the deadline)
 }
 
 func gen(off int64, n int, tag byte) []byte {
@@ -58,9 +61,24 @@ func gen(off int64, n int, tag byte) []byte {
 
 var w *rec.W
 
+type reach struct {
+	want int64
+	ch   chan struct{}
+	once sync.Once
+}
+
+var pauseOf = map[int]time.Duration{}
+var pauseMu sync.Mutex
+
 func stream(id int, who string, wr io.Writer, sizes []int, tag byte, closer func() error) {
 	var off int64
-	for _, n := range sizes {
+	pauseMu.Lock()
+	pause := pauseOf[id]
+	pauseMu.Unlock()
+	for i, n := range sizes {
+		if i > 0 && pause > 0 {
+			time.Sleep(pause)
+		}
 		w.Ev("write", "sc", id, "who", who, "off", off, "n", n)
 		k, err := wr.Write(gen(off, n, tag))
 		if err != nil || k != n {
@@ -75,9 +93,17 @@ func stream(id int, who string, wr io.Writer, sizes []int, tag byte, closer func
 	}
 }
 
+var reached sync.Map // scenario id -> chan struct{} closed when the B reader has read everything written
+
 func sink(id int, who string, rd io.Reader, setdl func(time.Time) error, tag byte, deadline time.Time, stopAt int64) (total int64, eof bool) {
 	buf := make([]byte, 70000)
 	for {
+		if ch, ok := reached.Load(id); ok && who == "B" {
+			c := ch.(*reach)
+			if total >= c.want {
+				c.once.Do(func() { close(c.ch) })
+			}
+		}
 		if stopAt >= 0 && total >= stopAt {
 			return total, false
 		}
@@ -104,6 +130,9 @@ func sink(id int, who string, rd io.Reader, setdl func(time.Time) error, tag byt
 
 func run(id int, s sched, seed int64) {
 	rng := rand.New(rand.NewSource(seed + int64(id)*7919))
+	pauseMu.Lock()
+	pauseOf[id] = time.Duration(s.PauseMs) * time.Millisecond
+	pauseMu.Unlock()
 	var mu sync.Mutex
 	start := time.Now()
 	match := func(ks []key, f *scriptconn.Frame) *key {
@@ -129,6 +158,7 @@ func run(id int, s sched, seed int64) {
 		}
 		if k := match(s.Dups, f); k != nil && f.Nth == 1 {
 			a.Dups = max(1, k.Copies)
+			a.DupDelay = time.Duration(k.DupDelayMs) * time.Millisecond
 		}
 		if k := match(s.Delays, f); k != nil && f.Nth == 1 {
 			a.Delay = time.Duration(k.Ms) * time.Millisecond
@@ -195,10 +225,20 @@ func run(id int, s sched, seed int64) {
 	go func() {
 		defer wg.Done()
 		var closer func() error
-		if !s.Both {
+		if !s.Both && !s.LateClose {
 			closer = ta.Close
 		}
 		stream(id, "A", ta, s.Sizes, 0x5a, closer)
+		if s.LateClose && !s.Both {
+			rc := &reach{want: want, ch: make(chan struct{})}
+			reached.Store(id, rc)
+			select {
+			case <-rc.ch:
+			case <-time.After(time.Until(deadline) - 2*time.Second):
+			}
+			w.Ev("close", "sc", id, "who", "A", "total", want)
+			ta.Close()
+		}
 		if s.Both {
 			<-aRead
 			w.Ev("close", "sc", id, "who", "A", "total", want)
